@@ -60,4 +60,45 @@ def walk (o : Opts) (ext : Ext) (sub : Sub) : St → Phase → List HTok → Exc
       | .error e => .error e
       | .ok (ok, ps) => .ok ((classify ext ph t out).1 && ok, (classify ext ph t out).2.2 ++ ps)
 
+/-! ## the lexer contract as a decidable predicate -/
+
+def opener4 : List Char := ['<', '!', '-', '-']
+
+/-- a comment token of the lexer: `<!--` text (`-->` | `--!>`), the text holds no closer -/
+def commentShape (data text : List Char) : Bool :=
+  (data == opener4 ++ text ++ ['-', '-', '>'] || data == opener4 ++ text ++ ['-', '-', '!', '>']) && !hasClose text
+
+/-- an end tag token: `</name` white space `>` -/
+def endTagShape (name data : List Char) : Bool :=
+  goodTag name && (['<', '/'] ++ name).isPrefixOf data &&
+    (match data.drop (2 + name.length) with
+     | [] => false
+     | r => r.getLast? == some '>' && r.dropLast.all Verif.Spec.HtmlAttr.isWs)
+
+def attrShape (a : Attr) : Bool := !a.tmpl && goodName a.name
+
+/-- **lexShape**: what the dependency lexer + TokenBuffer guarantee for the token stream of a document without template
+    delimiters, svg and math (by contract; K-C09-HTML-1, 2, 5, 6, 7 are inputs on which the lexer itself deviates from the
+    standard).  Tag and attribute names are good names; a text token holds no `<` that opens markup (its last byte may
+    be `<` when markup follows: checked with the sentinel `< `); the text of a raw-text element directly follows the element's start tag, holds no
+    appropriate end tag (script: and does not leave the tokenizer double-escaped — here: no `<!--`) and is followed by
+    the element's end tag; comments and end tags have their shapes. `raw`: the raw-text element we are in, and whether its
+    text has been seen. -/
+def lexShapeFrom : Option (List Char × Bool) → List HTok → Bool
+  | none, [] => true
+  | some _, [] => false
+  | none, .text d tm :: r => !tm && textSafe (d ++ ['<', ' ']) && lexShapeFrom none r
+  | none, .comment d tx :: r => commentShape d tx && lexShapeFrom none r
+  | none, .doctype :: r => lexShapeFrom none r
+  | none, .endTag n d :: r => endTagShape n d && lexShapeFrom none r
+  | none, .startTag n as :: r =>
+    goodTag n && !isForeignRoot n && as.all attrShape &&
+      (if rawMode (contentMode false n) then goodRawTag n && lexShapeFrom (some (n, false)) r
+       else contentMode false n == .data && lexShapeFrom none r)
+  | some (tag, false), .text d tm :: r => !tm && rawContentOK tag d && lexShapeFrom (some (tag, true)) r
+  | some (tag, _), .endTag n d :: r => n == tag && endTagShape n d && lexShapeFrom none r
+  | _, _ => false
+
+def lexShape (toks : List HTok) : Bool := lexShapeFrom none toks
+
 end Verif.Model.C09HtmlWalk
